@@ -323,6 +323,13 @@ func genbankFeatureParser(gb *GenBank, depth int) pars.Parser {
 		}
 		pars.Line(state, result)
 		state.Clear()
+		// A record without features is written with an empty line in place
+		// of the table.
+		if c, err := pars.Next(state); err == nil && (c == '\n' || c == '\r') {
+			pars.EOL(state, pars.Void)
+			gb.Table = nil
+			return nil
+		}
 		if err := fieldBodyParser(state, result); err != nil {
 			return err
 		}
